@@ -16,7 +16,7 @@ from symx.symsim import SymSim
 from symx.schedule import Sched
 
 MAY_DIVERGE = {'L3', 'L9'}
-BLOCK_CYCLIC = {'L2', 'L3', 'L4', 'L5', 'L6', 'L7', 'L8', 'L9', 'L10', 'L11', 'L12', 'L13', 'L14', 'L15', 'L16', 'Ring', 'RingComp', 'ForkJoin'}
+BLOCK_CYCLIC = {'L2', 'L3', 'L4', 'L5', 'L6', 'L7', 'L8', 'L9', 'L10', 'L11', 'L12', 'L13', 'L14', 'L15', 'L16', 'Ring', 'RingComp', 'ForkJoin', 'RingMixed'}
 
 REPLAY = '''
 sys.path.insert(0, '/verif')
